@@ -29,6 +29,12 @@ inductive Fixed where
   | cenum (k : Nat)
   /-- `(rec F1 … Fn)`: packed struct; valid iff every field is. -/
   | record (fs : List Fixed)
+  /-- `(podd HEX)`: a pod-like user type (every bit pattern valid, `|HEX|` bytes) that is NOT
+  `Zeroable` and has a hand-written `DefaultInitable` whose default value is the bytes `HEX`
+  (e.g. `struct Version { major: u8 = 1, minor: u8 = 0 }` = `(podd 0100)`). Only where Rust allows a
+  non-`Zeroable` fixed type: as an unsized type of its own and as a `List` element — not inside
+  packed records / sized parts / `Set` / `Map` (`Fixed.zeroable`). -/
+  | podd (dflt : List Nat)
   deriving Repr, Inhabited
 
 mutual
@@ -38,6 +44,7 @@ def Fixed.size : Fixed → Nat
   | .bool => 1
   | .cenum _ => 1
   | .record fs => Fixed.sizeList fs
+  | .podd d => d.length
 def Fixed.sizeList : List Fixed → Nat
   | [] => 0
   | f :: fs => f.size + Fixed.sizeList fs
@@ -52,22 +59,48 @@ def Fixed.valid : Fixed → List Nat → Bool
   | .bool, bs => decide (bs.headD 0 < 2)
   | .cenum k, bs => decide (bs.headD 0 < k)
   | .record fs, bs => Fixed.validList fs bs
+  | .podd _, _ => true
 def Fixed.validList : List Fixed → List Nat → Bool
   | [], _ => true
   | f :: fs, bs => f.valid (bs.take f.size) && Fixed.validList fs (bs.drop f.size)
 end
 
+/-- `T: Zeroable` (the blanket `DefaultInitable` then yields the all-zero value). -/
+def Fixed.zeroable : Fixed → Bool
+  | .podd _ => false
+  | _ => true
+
+/-- The bytes `UnsizedInit<DefaultInit>` writes for a fixed type: `T::default_init()` — zeroes for
+every `Zeroable` type (blanket impl, `init.rs` 30–37), the hand-written default for `podd`. -/
+def Fixed.dflt : Fixed → List Nat
+  | .podd d => d
+  | .pod n => List.replicate n 0
+  | .bool => List.replicate 1 0
+  | .cenum _ => List.replicate 1 0
+  | .record fs => List.replicate (Fixed.sizeList fs) 0
+
+@[simp] theorem Fixed.dflt_pod (n : Nat) : (Fixed.pod n).dflt = List.replicate n 0 := rfl
+@[simp] theorem Fixed.dflt_bool : Fixed.bool.dflt = List.replicate 1 0 := rfl
+@[simp] theorem Fixed.dflt_cenum (k : Nat) : (Fixed.cenum k).dflt = List.replicate 1 0 := rfl
+@[simp] theorem Fixed.dflt_record (fs : List Fixed) :
+    (Fixed.record fs).dflt = List.replicate (Fixed.sizeList fs) 0 := rfl
+@[simp] theorem Fixed.dflt_podd (d : List Nat) : (Fixed.podd d).dflt = d := rfl
+
+theorem Fixed.dflt_length (f : Fixed) : f.dflt.length = f.size := by
+  cases f <;> simp [Fixed.size]
+
 mutual
-/-- The zero value (`Zeroable::zeroed`, what `DefaultInit` writes for fixed types) is valid for
-every fixed shape iff every `cenum` has at least one variant. -/
+/-- Well-formed fixed shapes: the default value is valid (every `cenum` has at least one variant),
+`podd` defaults are bytes, and packed records only contain `Zeroable` fields. -/
 def Fixed.okF : Fixed → Bool
   | .pod _ => true
   | .bool => true
   | .cenum k => decide (0 < k ∧ k ≤ 256)
   | .record fs => Fixed.okList fs
+  | .podd d => decide (BytesWF d)
 def Fixed.okList : List Fixed → Bool
   | [] => true
-  | f :: fs => f.okF && Fixed.okList fs
+  | f :: fs => f.okF && f.zeroable && Fixed.okList fs
 end
 
 /-- Unsized shapes. Widths are in bytes. -/
@@ -153,8 +186,8 @@ distinct discriminant bytes, `unit` only as an enum payload (`inEnum`), `disc` o
 def okAux : (top inEnum : Bool) → Shape → Bool
   | _, _, .fixed f => f.okF && decide (0 < f.size)
   | _, _, .list e lw => e.okF && decide (0 < e.size) && lenW lw
-  | _, _, .set e lw => e.okF && decide (0 < e.size) && lenW lw
-  | _, _, .map kw v lw => v.okF && decide (0 < kw) && lenW lw
+  | _, _, .set e lw => e.okF && e.zeroable && decide (0 < e.size) && lenW lw
+  | _, _, .map kw v lw => v.okF && v.zeroable && decide (0 < kw) && lenW lw
   | _, _, .str lw => lenW lw
   | _, _, .rem => true
   | _, _, .ulist e => okAux false false e && !zst e
